@@ -62,6 +62,9 @@ SHAPES = {
     'comment_unless': [T(0), ('comment', '', [(None, [T(1)])]), T(2), ('unless', 'c', [(None, [T(3)])]), T(4)],
     'nested': [T(0), ('in', 'seq', [(None, [T(1), ('if', 'c', [(None, [T(2)])]), T(3)])]), T(4)],
     'adjacent': [T(0), ('if', 'c', [(None, [('var', 'x')])]), ('in', 'seq', [(None, [T(1)])]), ('var', 'x'), T(2)],
+    # wave 4: a tag-free body in a BATCHED loop (start beyond 1, window shorter than size) and try with except AND else
+    'in_batch': [T(0), ('inb', 'seq start=2 size=3', [(None, [T(1)]), ('else', [T(2)])]), T(3), ('inb', 'seq size=5 orphan=0', [(None, [T(4)])]), T(5)],
+    'try_except_else': [T(0), ('try', '', [(None, [T(1), ('if', 'c', [(None, [('raise', 'KeyError', [(None, [T(2)])])])]), T(3)]), ('except', [T(4)]), ('else', [T(5)])]), T(6)],
 }
 
 def slots_of(nodes):
@@ -91,6 +94,7 @@ def printer(nodes, slot, syn):
             out.append('<dtml-call %s>' % n[1] if syn == 'dtml' else '<!--#call %s-->' % n[1])
         else:
             kind, arg, sections = n
+            kind = 'in' if kind == 'inb' else kind
             a = (' ' + arg) if arg else ''
             out.append('<dtml-%s%s>' % (kind, a) if syn == 'dtml' else '<!--#%s%s-->' % (kind, a))
             for tag, body in sections:
@@ -153,6 +157,19 @@ def oracle(nodes, slot, env, after_block_tag=False, item=None):
                 else:
                     for k in range(env.n):
                         out.append(body(0, 'i%d' % k))
+            elif kind == 'inb':
+                # batched: 'start=2 size=3' shows elements 2..min(n, 4); 'size=5' shows 1..min(n, 5); empty window -> else body / nothing
+                first = 1 if 'start=2' in arg else 0
+                last = min(env.n, first + (3 if 'size=3' in arg else 5))
+                if env.n == 0 or first >= env.n:
+                    if env.n == 0 and len(sections) > 1:
+                        out.append(body(1))
+                    elif first >= env.n and env.n > 0:
+                        for k in range(env.n - 1, env.n):
+                            out.append(body(0, 'i%d' % k))      # a start beyond the end shows the last element
+                else:
+                    for k in range(first, last):
+                        out.append(body(0, 'i%d' % k))
             elif kind in ('with', 'let'):
                 out.append(body(0))
             elif kind == 'comment':
@@ -165,9 +182,13 @@ def oracle(nodes, slot, env, after_block_tag=False, item=None):
                     out.append(body(1))
                 else:
                     try:
-                        out.append(body(0))
+                        b0 = body(0)
                     except KeyError:
                         out.append(body(1))
+                    else:
+                        out.append(b0)
+                        if len(sections) > 2 and sections[2][0] == 'else':
+                            out.append(body(2))      # the else section: only when the body raised nothing
             prev_block = True
     return ''.join(out)
 
@@ -349,7 +370,7 @@ CP = ['0 <= c1 <= 0x10FFFF', '0 <= c2 <= 0x10FFFF', '0 <= c3 <= 0x10FFFF', '0 <=
 OBLIGATIONS.append(Ob('notag_fragments', ob_notag_html, CP[:3] + ['0 <= kf < %d' % len(FR), '0 <= kg < %d' % len(FR)], timeout=tier(280, 1200),
                       data='3 symbolic code points between near-tag fragments', selectors='fragments %r' % FR))
 QUICK_SLOTS = {'vars': (1, 3), 'if_else': (1, 2, 3), 'in_else': (1, 2, 4), 'with_let': (1, 2), 'try_except': (1, 3), 'try_finally': (2,), 'try_raise': (3, 5),
-               'comment_unless': (2, 3), 'nested': (2, 3), 'adjacent': (1,), 'if_elif': (2, 4)}
+               'comment_unless': (2, 3), 'nested': (2, 3), 'adjacent': (1,), 'if_elif': (2, 4), 'in_batch': (1, 4), 'try_except_else': (3, 4, 5)}
 FRQ = ['', ' ', '\t \n', 'x', '\n\n', '<']
 _cnt = 0
 for _shape in SHAPES:
